@@ -76,10 +76,12 @@ def generate(tier):
                                 yield (shape, g, partner, cg, list(combo), (r + len(combo[0].key)) % 2, ('one', 'each')[len(cg.key) % 2])
 
 
-def check(v, tier):
+def check(v, tier, only=None):
     binary = xp.build_xp()
     xp.init_canon(binary)
     reqs = list(generate(tier))
+    if only:
+        reqs = [q for q in reqs if 'C15|%s|%s|%s|+%s|o%d|%s' % (q[0].code(), q[1] + ('+' + K.PARTNER[q[1]] if q[2] else ''), q[3].key, '+'.join(c.key for c in q[4]), q[5], q[6]) == only]
     alone_src = {}
     inputs = []
     for (shape, g, partner, cg, cfgs, order, split) in reqs:
@@ -92,7 +94,8 @@ def check(v, tier):
     ares = dict(zip(akeys, xp.expand_all(binary, [alone_src[k] for k in akeys])))
     res = xp.expand_all(binary, inputs)
     from .. import realmacro
-    realmacro.conformance(v, binary, [alone_src[k] for k in akeys] + inputs[::7], [ares[k] for k in akeys] + res[::7], limit=6000 if tier == 'quick' else 40000)
+    if not only:
+        realmacro.conformance(v, binary, [alone_src[k] for k in akeys] + inputs[::7], [ares[k] for k in akeys] + res[::7], limit=6000 if tier == 'quick' else 40000)
     states = set()
     nontriv = 0
     classes = set()
@@ -125,10 +128,10 @@ def check(v, tier):
     v.cov['states'] = len(states)
     v.cov['transitions'] = sum(1 + len(r_[4]) for r_ in reqs)
     v.cov['distinct_nontrivial'] = nontriv
-    for req, src in list(zip(reqs, inputs))[::max(1, len(reqs) // 5)][:5]:
+    for req, src in (list(zip(reqs, inputs))[::max(1, len(reqs) // 5)][:5] if reqs else []):
         v.sample({'group': req[1], 'own': req[3].key, 'others': [c.key for c in req[4]], 'input': src})
-    guard(nontriv * 2 >= len(states), 'too few combined expansions contained other traits\' items')
-    guard('compared' in classes, 'nothing compared')
+    guard(only or nontriv * 2 >= len(states), 'too few combined expansions contained other traits\' items')
+    guard(only or 'compared' in classes, 'nothing compared')
     return v.finish('shapes {named/tuple struct, two enums, union; thorough: + unit struct, 3-variant enum with a unit variant, generic struct and enum} x trait '
                     'group g in {Debug, Clone[+Copy], PartialEq[+Eq], PartialOrd[+Ord], Hash, Default, Deref, DerefMut, Into} with its own '
                     'configurations (one deviation per configuration in quick, full product in thorough) x every subset of the other groups at the '
